@@ -142,7 +142,9 @@ fn oracle(s: &ProgScene<X>, t: &Trace) -> Vec<Violation> {
         .checked_sub(1)
         .and_then(|i| an.op(0, i as u16))
         .and_then(|o| o.end)
-        .is_some_and(|e| t.res.end == crate::vexec::EndReason::Quiescent || t.log[e].time + 5 <= s_horizon(s));
+        // (in the racy runs virtual time may also pass while the actor is runnable, so there only
+        // a quiescent end shows that everything issued has been worked off)
+        .is_some_and(|e| t.res.end == crate::vexec::EndReason::Quiescent || (!x.racy && t.log[e].time + 5 <= s_horizon(s)));
     if x.term != Term::Never && action_issued {
         match term {
             None => out.push(Violation {
@@ -273,6 +275,23 @@ fn plain_cases(tier: Tier) -> Vec<Case> {
                                     v.push(make_case(&[(timer_of(kind, 1, p), in_handler)], term, tt, mb, work, racy, early));
                                 }
                             }
+                        }
+                    }
+                }
+            }
+        }
+    }
+    // one-shots with a zero delay: due at once, and still timers (they die with the actor)
+    for kind in 2..4u8 {
+        for in_handler in [false, true] {
+            for &mb in &mbs {
+                for &term in &terms {
+                    for &tt in &[0u32, 1, 2] {
+                        if term == Term::Never && tt != 0 {
+                            continue;
+                        }
+                        for racy in [false, true] {
+                            v.push(make_case(&[(timer_of(kind, 1, 0), in_handler)], term, tt, mb, Work::default(), racy, early));
                         }
                     }
                 }
